@@ -344,6 +344,14 @@ class Driver(GenericAdapter):
             if mk:
                 del mk[next(iter(mk))]
             e("missing_key_dict", mk)
+            ren_any = False
+            for kk in list(vis):
+                rn = {(("renamed", "key") if a is kk else a): b for a, b in vis.items()}
+                e("renamed_key_dict", rn)
+                if eq.get("renamed_key_dict") is not False:
+                    ren_any = eq.get("renamed_key_dict")
+                    break
+            eq["renamed_key_dict"] = ren_any
             xk = dict(vis)
             xk[("extra", "key")] = 1
             e("extra_key_dict", xk)
@@ -447,7 +455,7 @@ def sanitize(traces):
         out["todict_t"] = v if isinstance(v, list) and all(isinstance(p, list) and len(p) == 2 and isinstance(p[0], int) and isinstance(p[1], list) for p in v) else [[-7, [-7]]]
         eq = o.get("eq") or {}
         out["eq"] = {k: (eq.get(k) if isinstance(eq.get(k), bool) else (k == "extra_key_dict"))   # flipped = never matches
-                     for k in ("same_omd", "reordered_omd", "plus_one_omd", "minus_one_omd", "diffval_omd", "same_dict", "diffval_dict", "missing_key_dict", "extra_key_dict", "non_mapping")}
+                     for k in ("same_omd", "reordered_omd", "plus_one_omd", "minus_one_omd", "diffval_omd", "same_dict", "renamed_key_dict", "diffval_dict", "missing_key_dict", "extra_key_dict", "non_mapping")}
         if not all(isinstance(eq.get(k), bool) for k in out["eq"]):
             out["eq"]["same_omd"] = False
         out["wf"] = o.get("wf") is True
